@@ -107,20 +107,41 @@ func runC20(c *Ctx) {
 	if fn := p.Func(rel, "", "nextSectionReplica"); fn == nil {
 		c.Incomplete("replicas-by-clockwise-walk", rel+".nextSectionReplica", "", "function not found")
 	} else {
-		ok := false
+		info := fn.Info()
+		wb := shapeBind{}
+		var walk *ast.ForStmt
 		ast.Inspect(fn.Body(), func(nd ast.Node) bool {
 			f, isFor := nd.(*ast.ForStmt)
 			if !isFor || f.Init == nil || f.Cond == nil || f.Post == nil {
 				return true
 			}
-			if stmtText(p, f.Init) == "k:=1" && stmtText(p, f.Cond) == "k<=len(ringSections)" && stmtText(p, f.Post) == "k++" && len(f.Body.List) > 0 &&
-				stmtText(p, f.Body.List[0]) == "j:=(from+k)%len(ringSections)" {
-				ok = true
+			if matchShape("§k:=1", stmtText(p, f.Init), wb) && matchShape("§k<=len(§ring)", stmtText(p, f.Cond), wb) && matchShape("§k++", stmtText(p, f.Post), wb) && len(f.Body.List) > 0 &&
+				matchShape("§j:=(§from+§k)%len(§ring)", stmtText(p, f.Body.List[0]), wb) {
+				walk = f
 			}
 			return true
 		})
-		c.Check(ok, "replicas-by-clockwise-walk", rel+".nextSectionReplica", p.Pos(fn.Decl.Pos()), "walk-shape",
-			"candidates must be visited in ring order (from+k) mod len for k = 1..len")
+		bad := ""
+		if walk == nil {
+			bad = "candidates must be visited in ring order (from+k) mod len for k = 1..len"
+		} else {
+			// every section index the function returns comes out of that walk; the only other result is "none" (negative)
+			ast.Inspect(fn.Body(), func(nd ast.Node) bool {
+				ret, ok := nd.(*ast.ReturnStmt)
+				if !ok || len(ret.Results) != 1 || bad != "" {
+					return true
+				}
+				if v, isC := constInt(info, ret.Results[0]); isC && v < 0 {
+					return true
+				}
+				inWalk := walk.Body.Pos() <= ret.Pos() && ret.End() <= walk.Body.End()
+				if !inWalk || canon(ret.Results[0]) != wb["§j"] {
+					bad = "a section is returned by `" + stmtText(p, ret) + "`, which is not the candidate of the ring-order walk (from+k) mod len: a different walk can start at a different section (e.g. clamp from = −1 to 0 and skip the section's own endpoint) and reorder the replicas of existing series"
+				}
+				return true
+			})
+		}
+		c.Check(bad == "", "replicas-by-clockwise-walk", rel+".nextSectionReplica", p.Pos(fn.Decl.Pos()), "walk-shape", bad)
 	}
 	if fn := p.Func(rel, "", "calculateSectionReplicas"); fn == nil {
 		c.Incomplete("replicas-by-clockwise-walk", rel+".calculateSectionReplicas", "", "function not found")
